@@ -10,7 +10,7 @@ CONSTANTS
   MaxHosts = 2
   MaxRoutes = 2
   MaxDef = 1
-  NHostVals = 5
+  NHostVals = 4
   NPaths = 4
   NQueries = 1
   Others = {0}
